@@ -2,11 +2,13 @@ package shimagent
 
 //vsym:pkg github.com/theparanoids/ysshra/agent/shimagent
 //vsym:include shim/world.go
+//vsym:include shim/peek.go || shim/peek_bb.go
 //vsym:entry H07_shim
 //vsym:entry H07_upstream3
 //vsym:entry H07_time_passes
 //vsym:replay same-harness repeat=6
-//vsym:expect-cover C07.listed-valid C07.purged-expired-upstream C07.purged-expired-memory C07.orphan-dropped C07.empty-list-keeps C07.upstream-fault C07.time-passes
+//vsym:expect-cover C07.listed-valid C07.purged-expired-upstream C07.upstream-fault C07.time-passes
+//vsym:expect-cover-peek C07.purged-expired-memory C07.orphan-dropped C07.empty-list-keeps
 //vsym:bound H07_time_passes: one hardware certificate (KeyID decodes or not, with or without a trailing newline) registered through AddHardCert at an arbitrary instant inside its arbitrary window, optionally listed, then List / Signers / Sign at an arbitrary later instant past the end of the window; both modes
 //vsym:bound H07_upstream3: no in-memory certificate, exactly three upstream identities (two certificates and a third certificate or plain key), symbolic windows and clock, both modes, List / Signers / Sign
 //vsym:bound H07_shim: pre-state under the representation invariant with 0..1 (thorough 0..2) in-memory certificates and 0..2 upstream identities (plain key of 2 possible keys, a certificate over either key, or the in-memory certificate itself also held upstream); every validity window and the clock symbolic; both modes; every map iteration order; the first (thorough: one of the first two) upstream call may fail; one operation from List / Signers / Sign
@@ -115,7 +117,7 @@ func H07_time_passes() {
 	for _, sg := range signers {
 		vAssert(string(sg.PublicKey().Marshal()) != string(mwCertMarshal(c)), "C07.no-listed-certificate-outside-its-window")
 	}
-	vAssert(len(s.certs) == 0, "C07.expired-in-memory-certificate-removed")
+	vAssert(!mwPeek || mwMemLen(s) == 0, "C07.expired-in-memory-certificate-removed")
 	vReach("C07.time-passes")
 }
 
@@ -265,6 +267,9 @@ func h07Scenario(maxMem, maxUp, exactUp int) {
 		vCover(vAnd(h07MustReject(c), !still), "C07.purged-expired-upstream")
 	}
 	for _, c := range mem {
+		if !mwPeek {
+			break // the in-memory table is not observable without disturbing it
+		}
 		still := mwMemHas(s, c)
 		vAssert(vImplies(h07MustReject(c), !still), "C07.expired-in-memory-certificate-removed")
 		vCover(vAnd(h07MustReject(c), !still), "C07.purged-expired-memory")
